@@ -18,7 +18,7 @@
 (*   kend / mend      no clean window is left                              *)
 (* Internal registers are not looked at here (the short traces do that).   *)
 (***************************************************************************)
-EXTENDS MinOps, TraceLib
+EXTENDS MinOps, TraceLib, SequencesExt
 VARIABLES base,      \* index of the init event of the current run (0: none)
           nxt,       \* kmers: position after the last item (1-based end of window); runs: 0-based start of the first window not yet accounted for
           lastv,     \* runs: minimiser of the previous run, <<>> if the previous window was not in a run
@@ -32,7 +32,7 @@ N == Len(Bytes)
 Cl(i) == ClassOf(Bytes[i])                                   \* 1-based
 CleanB(i, k) == \A j \in i..(i + k - 1) : Cl(j) # 4          \* window of k bytes starting at 1-based i
 Dig(i, k) == [j \in 1..k |-> Cl(i + j - 1)]
-Max(a, b) == IF a > b THEN a ELSE b
+MaxI(a, b) == IF a > b THEN a ELSE b
 
 TInit == TrackInit /\ l = 1 /\ base = 0 /\ nxt = 0 /\ lastv = <<>> /\ adj = FALSE /\ carry = <<>> /\ owed = <<>>
 Idle == base = 0
@@ -47,12 +47,12 @@ TKEmit == /\ Is("kemit") /\ ~Idle /\ Rec[base].ev = "kinit"
              /\ CleanB(p - K + 1, K)
              /\ HighZero(Ev.f, K) /\ LowDigits(Ev.f, K) = Dig(p - K + 1, K)
              /\ HighZero(Ev.r, K) /\ LowDigits(Ev.r, K) = RC(Dig(p - K + 1, K))
-             /\ \A q \in Max(nxt + 1, K)..(p - 1) : ~CleanB(q - K + 1, K)       \* nothing skipped
+             /\ \A q \in MaxI(nxt + 1, K)..(p - 1) : ~CleanB(q - K + 1, K)       \* nothing skipped
              /\ nxt' = p
           /\ Consume /\ UNCHANGED <<base, lastv, adj, carry, owed>>
 TKEnd == /\ Is("kend") /\ ~Idle /\ Rec[base].ev = "kinit"
          /\ Ev.pos = N
-         /\ \A q \in Max(nxt + 1, K)..N : ~CleanB(q - K + 1, K)
+         /\ \A q \in MaxI(nxt + 1, K)..N : ~CleanB(q - K + 1, K)
          /\ base' = 0 /\ nxt' = 0 /\ Consume /\ UNCHANGED <<lastv, adj, carry, owed>>
 
 \* ------------------------------------------------------------ minimiser iterators
@@ -81,11 +81,25 @@ TMRun == /\ Is("mrun") /\ ~Idle /\ Rec[base].ev = "minit"
                /\ CleanB(s + 1, e - s)                           \* the whole span is clean
                \* every window of the run has minimiser v - RunCover!AllWindowsOnePass written out on the span's canonical m-mers
                \* (one pass over the span instead of one per window; the equivalence with the plain form is model-checked
-               \* there): nothing in the span is smaller than v, and every window holds an occurrence of v
+               \* there): nothing in the span is smaller than v, and every window holds an occurrence of v (first occurrence in the
+               \* first window, last in the last, neighbours no further apart than a window is wide)
                /\ LET cm == [j \in (s + 1)..(e - M + 1) |-> Canon(Dig(j, M))]       \* canonical m-mers of the span, once
+                      occset == {j \in (s + 1)..(e - M + 1) : cm[j] = v}            \* where v occurs
+                      q == W - M + 1                                                  \* m-mers per window
+                      \* few occurrences: their sorted positions (RunCover!AllWindowsOnePass)
+                      occ == SetToSortSeq(occset, <)
+                      n == Len(occ)
+                      \* many occurrences: the most recent one at or before j (RunCover!AllWindowsByLast; shallow recursion)
                       last[j \in s..(e - M + 1)] == IF j = s THEN 0 ELSE IF cm[j] = v THEN j ELSE last[j - 1]
                   IN /\ \A j \in (s + 1)..(e - M + 1) : ~LexLess(cm[j], v)
-                     /\ \A t \in s..(e - W) : last[t + 1 + W - M] >= t + 1
+                     /\ IF Cardinality(occset) <= 24 /\ e - W - s < 5000      \* a handful: window by window, as stated
+                        THEN \A t \in s..(e - W) : {j \in occset : j >= t + 1 /\ j <= t + 1 + W - M} # {}      \* (a set test: \E in an action branches)
+                        ELSE IF Cardinality(occset) <= 1500
+                        THEN /\ n >= 1
+                             /\ occ[1] <= s + q                       \* inside the first window
+                             /\ occ[n] >= e - W + 1                   \* inside the last window
+                             /\ \A i \in 1..(n - 1) : occ[i + 1] - occ[i] <= q
+                        ELSE \A t \in s..(e - W) : last[t + 1 + W - M] >= t + 1
                /\ (adj /\ s = nxt) => lastv # v                 \* maximal on the left
                /\ IF Rec[base].kv = 1
                   THEN LET comb == carry \o [i \in 1..Len(Ev.kmers) |-> LowDigits(Ev.kmers[i], W)]
